@@ -809,7 +809,7 @@ theorem reset_sound [DecidableEq α] {S : SimIface σ α ω ι} {k : MKind} (hW 
           none, S.agents.map (S.pending (S.reset m.sim)),
           ghostOf S (readObs S (S.reset m.sim) (S.agents.filter (fun a => decide (a ∉ S.nonLearners)))).2⟩,
          { m with sim := (readObs S (S.reset m.sim) (S.agents.filter (fun a => decide (a ∉ S.nonLearners)))).2,
-                  doneSet := S.nonLearners }) := by
+                  doneSet := S.nonLearners, ptr := 0 }) := by
       simp only [runOp, mgrReset]
     unfold OpSound
     rw [hE]
@@ -861,7 +861,7 @@ theorem reset_sound [DecidableEq α] {S : SimIface σ α ω ι} {k : MKind} (hW 
         (⟨.reset, .resetOk (readObs S (S.reset m.sim) (S.next (S.reset m.sim))).1,
           none, S.agents.map (S.pending (S.reset m.sim)),
           ghostOf S (readObs S (S.reset m.sim) (S.next (S.reset m.sim))).2⟩,
-         { m with sim := (readObs S (S.reset m.sim) (S.next (S.reset m.sim))).2, doneSet := [] }) := by
+         { m with sim := (readObs S (S.reset m.sim) (S.next (S.reset m.sim))).2, doneSet := [], ptr := 0 }) := by
       simp only [runOp, mgrReset]
     unfold OpSound
     rw [hE]
